@@ -2,6 +2,7 @@
    every oracle answer, every configuration, every iteration order of s_seg_part. *)
 From Coq Require Import Lia ZifyBool ZifyN ZifyNat Permutation.
 From Ragc Require Import Mach Consts_segment Consts_registry GroupStore Registry.
+From Ragc Require Segment Pipeline.
 Open Scope N_scope.
 Arguments N.add : simpl never.
 Arguments N.sub : simpl never.
@@ -13,6 +14,7 @@ Ltac Zify.zify_post_hook ::= Z.div_mod_to_equations.
 Lemma NRAW_eq : NRAW = 16. Proof. reflexivity. Qed.
 Lemma two32_eq : two32 = 4294967296. Proof. reflexivity. Qed.
 Lemma MISS_eq : MISS = 18446744073709551615. Proof. reflexivity. Qed.
+Lemma MISS_def : MISS = MISSING_KMER. Proof. reflexivity. Qed.
 Global Opaque NRAW MISS.
 
 (* ------------------------------------------------------------------ keys and association lists *)
@@ -1393,4 +1395,261 @@ Proof.
     exfalso. apply H1. apply in_map_iff. exists (lbl, p). split; [reflexivity|exact H].
   - destruct Hin as [H|H]; [inversion H; subst; rewrite (proj2 (placed_eqb_eq p p) eq_refl) in E; discriminate|].
     apply IH; assumption.
+Qed.
+
+(* ------------------------------------------------------------------ segment identities are stored once
+   (distinct contig names: push rejects a repeated name) *)
+Definition pid (p : placed) : list N * list N * N := (p_sample p, p_name p, p_part p).
+Definition epid (e : placed * key * N) : list N * list N * N := pid (fst (fst e)).
+Definition cname (c : contig) : list N * list N := (c_sample c, c_name c).
+
+(* the entries one contig adds: its names, part numbers in [lo, hi), pairwise distinct *)
+Definition fresh_block (sn cn : list N) (lo hi : N) (new : list (placed * key * N)) : Prop :=
+  (forall e, In e new -> p_sample (fst (fst e)) = sn /\ p_name (fst (fst e)) = cn /\ lo <= p_part (fst (fst e)) < hi) /\
+  NoDup (map (fun e => p_part (fst (fst e))) new).
+
+Lemma classify_step_block cf sn cn x st part :
+  exists new, cs_log (fst (classify_step cf sn cn x (st, part))) = new ++ cs_log st /\
+              fresh_block sn cn part (snd (classify_step cf sn cn x (st, part))) new /\
+              part <= snd (classify_step cf sn cn x (st, part)).
+Proof.
+  destruct x as [s o]. unfold classify_step.
+  destruct (classify_key cf s o) as [[kf kb] sr].
+  assert (One : forall k g, fresh_block sn cn part (part + 1) [(mk_placed sn cn part sr, k, g)]).
+  { intros k g. split; [|cbn; constructor; [intros []|constructor]].
+    intros e [<-|[]]. cbn [fst mk_placed p_sample p_name p_part]. repeat split; lia. }
+  destruct (kget (r_map (cs_reg st)) (kf, kb)) as [gid|] eqn:Eg.
+  - destruct ((kf =? MISS) && (kb =? MISS)); cbn [fst snd cs_log]; eexists [_]; (split; [reflexivity|split; [apply One|lia]]).
+  - destruct (split_attempt cf (r_map (cs_reg st)) s o kf kb sr sn cn part) as [[adds incr]|] eqn:Es.
+    + cbn [fst snd cs_log]. apply split_attempt_cases in Es.
+      destruct Es as [(g1 & p1 & k1 & g2 & p2 & k2 & -> & _ & _ & -> & S1 & N1 & S2 & N2 & HP & _)|(g1 & p1 & k1 & -> & _ & -> & S1 & N1 & P1 & _)];
+        cbn [map rev app fst snd]; [exists [(p2, k2, g2); (p1, k1, g1)]|exists [(p1, k1, g1)]]; (split; [reflexivity|]).
+      * split; [|lia]. split.
+        -- intros e [<-|[<-|[]]]; cbn [fst]; (split; [assumption|split; [assumption|lia]]).
+        -- cbn [map fst]. constructor; [intros [H|[]]; lia|constructor; [intros []|constructor]].
+      * split; [|lia]. split.
+        -- intros e [<-|[]]; cbn [fst]. split; [assumption|split; [assumption|lia]].
+        -- cbn. constructor; [intros []|constructor].
+    + unfold register_key. rewrite Eg. cbn [fst snd cs_log]. eexists [_]. split; [reflexivity|split; [apply One|lia]].
+Qed.
+
+Lemma NoDup_app_disj {A} (l1 l2 : list A) : NoDup l1 -> NoDup l2 -> (forall x, In x l1 -> In x l2 -> False) -> NoDup (l1 ++ l2).
+Proof.
+  intros N1 N2 D. induction l1 as [|a l1 IH]; cbn [app]; [exact N2|]. inversion N1; subst. constructor.
+  - intro H. apply in_app_or in H. destruct H as [H|H]; [contradiction|]. apply (D a); [left; reflexivity|exact H].
+  - apply IH; [assumption|]. intros x Hx Hy. apply (D x); [right; exact Hx|exact Hy].
+Qed.
+
+Lemma fresh_block_app sn cn a b c new1 new2 : a <= b -> b <= c ->
+  fresh_block sn cn a b new1 -> fresh_block sn cn b c new2 -> fresh_block sn cn a c (new2 ++ new1).
+Proof.
+  intros Hab Hbc [A1 A2] [B1 B2]. split.
+  - intros e He. apply in_app_or in He. destruct He as [He|He]; [destruct (B1 e He) as (H1 & H2 & H3)|destruct (A1 e He) as (H1 & H2 & H3)];
+      (split; [exact H1|split; [exact H2|lia]]).
+  - rewrite map_app. apply NoDup_app_disj; [exact B2|exact A2|].
+    intros x Hx Hy. apply in_map_iff in Hx, Hy. destruct Hx as (e1 & <- & H1), Hy as (e2 & E & H2).
+    destruct (B1 e1 H1) as (_ & _ & ?), (A1 e2 H2) as (_ & _ & ?). lia.
+Qed.
+
+Lemma fold_steps_block cf sn cn l : forall st part,
+  exists new, cs_log (fst (fold_steps cf sn cn l (st, part))) = new ++ cs_log st /\
+              fresh_block sn cn part (snd (fold_steps cf sn cn l (st, part))) new /\
+              part <= snd (fold_steps cf sn cn l (st, part)).
+Proof.
+  induction l as [|x l IH]; intros st part; unfold fold_steps; cbn [fold_left fst snd].
+  - exists []. split; [reflexivity|]. split; [split; [intros e []|constructor]|lia].
+  - destruct (classify_step_block cf sn cn x st part) as (new1 & E1 & F1 & L1).
+    destruct (classify_step cf sn cn x (st, part)) as [st1 part1]. cbn [fst snd] in *.
+    destruct (IH st1 part1) as (new2 & E2 & F2 & L2). unfold fold_steps in *.
+    exists (new2 ++ new1). split; [rewrite E2, E1, app_assoc; reflexivity|]. split; [|lia].
+    eapply fresh_block_app; eassumption.
+Qed.
+
+Lemma sort_contigs_perm l : Permutation (sort_contigs l) l.
+Proof.
+  unfold sort_contigs.
+  assert (Hins : forall x acc, Permutation (insert_contig x acc) (x :: acc)).
+  { intros x acc. induction acc as [|y acc IH]; cbn [insert_contig]; [apply Permutation_refl|].
+    destruct (contig_ltb x y); [apply Permutation_refl|]. eapply Permutation_trans; [apply perm_skip; exact IH|apply perm_swap]. }
+  assert (G : forall l acc, Permutation (fold_left (fun acc x => insert_contig x acc) l acc) (l ++ acc)).
+  { clear l. induction l as [|x l IH]; intro acc; cbn [fold_left app]; [apply Permutation_refl|].
+    eapply Permutation_trans; [apply IH|]. eapply Permutation_trans; [apply Permutation_app_head; apply Hins|].
+    apply Permutation_sym. apply Permutation_middle. }
+  specialize (G l []). rewrite app_nil_r in G. exact G.
+Qed.
+
+(* all contigs of a round *)
+Lemma classify_all_ids cf : forall l st,
+  NoDup (map cname l) ->
+  NoDup (map epid (cs_log st)) ->
+  (forall e, In e (cs_log st) -> ~ In (p_sample (fst (fst e)), p_name (fst (fst e))) (map cname l)) ->
+  let st' := fold_left (classify_contig cf) l st in
+  NoDup (map epid (cs_log st')) /\
+  (forall e, In e (cs_log st') -> In e (cs_log st) \/ In (p_sample (fst (fst e)), p_name (fst (fst e))) (map cname l)).
+Proof.
+  induction l as [|c l IH]; intros st NDn NDl Hold; cbn [fold_left map] in *.
+  - cbn zeta. split; [exact NDl|]. intros e He. left. exact He.
+  - inversion NDn as [|x0 l0 Hnc NDn']; subst.
+    destruct (fold_steps_block cf (c_sample c) (c_name c) (c_segs c) st 0) as (new & E & [F1 F2] & _).
+    rewrite <- classify_contig_eq in E.
+    assert (NDnew : NoDup (map epid (cs_log (classify_contig cf st c)))).
+    { rewrite E, map_app. apply NoDup_app_disj.
+      - (* within the block: same names, distinct parts *)
+        clear -F1 F2. induction new as [|e new IHn]; cbn [map]; [constructor|]. cbn [map] in F2. inversion F2; subst. constructor.
+        + intro Hin. apply in_map_iff in Hin. destruct Hin as (e' & Ee & He'). apply H1. apply in_map_iff. exists e'. split; [|exact He'].
+          unfold epid, pid in Ee. inversion Ee. reflexivity.
+        + apply IHn; [intros e' He'; apply F1; right; exact He'|exact H2].
+      - exact NDl.
+      - intros x Hx Hy. apply in_map_iff in Hx, Hy. destruct Hx as (e1 & <- & H1), Hy as (e2 & E2 & H2).
+        destruct (F1 e1 H1) as (S1 & N1 & _). apply (Hold e2 H2). left. unfold cname.
+        unfold epid, pid in E2. inversion E2. congruence. }
+    destruct (IH (classify_contig cf st c) NDn' NDnew) as (A & B).
+    { intros e He Hin. rewrite E in He. apply in_app_or in He. destruct He as [He|He].
+      - destruct (F1 e He) as (S1 & N1 & _). apply Hnc. rewrite S1, N1 in Hin. exact Hin.
+      - apply (Hold e He). right. exact Hin. }
+    cbn zeta in *. split; [exact A|]. intros e He. destruct (B e He) as [H|H]; [|right; right; exact H].
+    rewrite E in H. apply in_app_or in H. destruct H as [H|H]; [|left; exact H].
+    right. left. destruct (F1 e H) as (S1 & N1 & _). unfold cname. congruence.
+Qed.
+
+Lemma NoDup_app_l {A} (l1 l2 : list A) : NoDup (l1 ++ l2) -> NoDup l1.
+Proof.
+  induction l1 as [|a l1 IH]; cbn [app]; intro H; [constructor|]. inversion H; subst. constructor.
+  - intro Hin. apply H2. apply in_or_app. left. exact Hin.
+  - apply IH. exact H3.
+Qed.
+Lemma NoDup_app_r {A} (l1 l2 : list A) : NoDup (l1 ++ l2) -> NoDup l2.
+Proof. induction l1 as [|a l1 IH]; cbn [app]; intro H; [exact H|]. inversion H; subst. apply IH. assumption. Qed.
+
+Lemma round_log_eq cf ord r contigs :
+  snd (round cf ord r contigs) = rev (cs_log (fold_left (classify_contig cf) (sort_contigs contigs) (cstate_of r))).
+Proof.
+  unfold round.
+  assert (E : cs_log (classify_round cf ord r contigs) = cs_log (fold_left (classify_contig cf) (sort_contigs contigs) (cstate_of r))).
+  { unfold classify_round. destruct contigs as [|c0 cs]; [reflexivity|].
+    destruct (process_new _ _ _ _ _) as [[[m' next'] vlen'] vl']. reflexivity. }
+  destruct (cs_vl (classify_round cf ord r contigs)); [cbn [snd]; rewrite E; reflexivity|].
+  cbn [process_new pn_assign pn_move]. destruct (place_all _ _ _ _) as [[bufs' ss'] out']. cbn [snd]. rewrite E. reflexivity.
+Qed.
+
+Lemma round_ids cf ord r contigs : NoDup (map cname contigs) ->
+  NoDup (map epid (snd (round cf ord r contigs))) /\
+  (forall e, In e (snd (round cf ord r contigs)) -> In (p_sample (fst (fst e)), p_name (fst (fst e))) (map cname contigs)).
+Proof.
+  intro ND. rewrite round_log_eq.
+  assert (NDs : NoDup (map cname (sort_contigs contigs))).
+  { eapply Permutation_NoDup; [apply Permutation_map; apply Permutation_sym; apply sort_contigs_perm|exact ND]. }
+  destruct (classify_all_ids cf (sort_contigs contigs) (cstate_of r) NDs) as (A & B); [constructor|intros e []|]. cbn zeta in *.
+  split.
+  - rewrite map_rev. eapply Permutation_NoDup; [apply Permutation_rev|exact A].
+  - intros e He. apply in_rev in He. destruct (B e He) as [[]|H].
+    eapply Permutation_in; [apply Permutation_map; apply sort_contigs_perm|exact H].
+Qed.
+
+Lemma run_ids cf ord : forall rounds r, NoDup (map cname (concat rounds)) ->
+  NoDup (map epid (concat (snd (run_rounds cf ord r rounds)))) /\
+  (forall e, In e (concat (snd (run_rounds cf ord r rounds))) ->
+     In (p_sample (fst (fst e)), p_name (fst (fst e))) (map cname (concat rounds))).
+Proof.
+  induction rounds as [|c tl IH]; intros r ND; cbn [run_rounds concat snd].
+  - split; [constructor|intros e []].
+  - cbn [concat] in ND. rewrite map_app in ND.
+    assert (ND1 : NoDup (map cname c)) by (eapply NoDup_app_l; exact ND).
+    assert (ND2 : NoDup (map cname (concat tl))) by (eapply NoDup_app_r; exact ND).
+    destruct (round_ids cf ord r c ND1) as (A1 & B1).
+    destruct (round cf ord r c) as [[r1 out] lg]. cbn [snd] in A1, B1.
+    destruct (IH r1 ND2) as (A2 & B2). destruct (run_rounds cf ord r1 tl) as [[r2 outs] lgs]. cbn [snd concat] in *.
+    split.
+    + rewrite map_app. apply NoDup_app_disj; [exact A1|exact A2|].
+      intros x Hx Hy. apply in_map_iff in Hx, Hy. destruct Hx as (e1 & <- & H1), Hy as (e2 & E2 & H2).
+      specialize (B1 e1 H1). specialize (B2 e2 H2). unfold epid, pid in E2. inversion E2 as [[Ea Eb Ec]]. rewrite Ea, Eb in B2.
+      (* the name is in this round and in a later one *)
+      clear -ND B1 B2. induction (map cname c) as [|n l IHl]; [destruct B1|]. cbn [app] in ND. inversion ND; subst.
+      destruct B1 as [->|B1]; [apply H1; apply in_or_app; right; exact B2|exact (IHl H2 B1)].
+    + intros e He. rewrite map_app. apply in_or_app. apply in_app_or in He. destruct He as [He|He]; [left; exact (B1 e He)|right; exact (B2 e He)].
+Qed.
+
+Lemma concat_perm_map {A B C} (f : A -> C) (g : B -> C) (la : list (list A)) (lb : list (list B)) :
+  Forall2 (fun a b => Permutation (map f a) (map g b)) la lb -> Permutation (map f (concat la)) (map g (concat lb)).
+Proof.
+  induction 1 as [|a b la lb H _ IH]; cbn [concat map]; [constructor|]. rewrite !map_app. apply Permutation_app; assumption.
+Qed.
+
+Theorem stored_ids_distinct_proof : forall cf ord rounds r outs lgs, run_ok cf ord rounds r outs lgs ->
+  NoDup (map (fun c => (c_sample c, c_name c)) (concat rounds)) ->
+  NoDup (map (fun x => (p_sample (snd x), p_name (snd x), p_part (snd x))) (concat outs)) /\
+  forall lbl p, In (lbl, p) (concat outs) -> grp_of (concat outs) p = lbl.
+Proof.
+  intros cf ord rounds r outs lgs H ND. pose proof (add_known_never_drops_proof _ _ _ _ _ _ H) as P.
+  destruct H as (Po & E & Hw). destruct (run_ids cf ord rounds reg_init ND) as (A & _). rewrite E in A. cbn [snd] in A.
+  pose proof (concat_perm_map _ _ _ _ P) as PP.
+  assert (N1 : NoDup (map pid (map snd (concat outs)))).
+  { eapply Permutation_NoDup; [apply Permutation_map; apply Permutation_sym; exact PP|]. rewrite map_map. exact A. }
+  split; [rewrite map_map in N1; exact N1|].
+  apply group_of_is_a_function_proof. exact (NoDup_map_inv _ _ N1).
+Qed.
+
+(* ------------------------------------------------------------------ the registry and Pipeline.v (C01's contig level) number and
+   orient the pieces of a raw segment alike: with the decision the registry's step amounts to, Pipeline.seg_pieces yields
+   the same seg_part_no and is_rev_comp per piece, in the same order, and the same seg_part_no increment *)
+Definition seg_raw (s : Segment.segment) : rawseg :=
+  {| rs_front := Segment.sfront s; rs_back := Segment.sback s; rs_fdir := Segment.sfdir s; rs_bdir := Segment.sbdir s |}.
+
+Lemma should_reverse_case2 cf s o kf kb sr :
+  classify_key cf (seg_raw s) o = (kf, kb, sr) -> Pipeline.both_kmers s = true -> Pipeline.should_reverse s sr = sr.
+Proof.
+  unfold classify_key, Pipeline.should_reverse, Pipeline.both_kmers, seg_raw. cbn [rs_front rs_back]. rewrite <- MISS_def.
+  intros E B. rewrite B in *. destruct (Segment.sfront s <? Segment.sback s); inversion E; reflexivity.
+Qed.
+Lemma should_reverse_other s sr : Pipeline.both_kmers s = false -> Pipeline.should_reverse s sr = sr.
+Proof. unfold Pipeline.should_reverse. intros ->. reflexivity. Qed.
+
+Theorem parts_agree_with_pipeline_proof : forall cf sn cn (s : Segment.segment) o st (part k : nat),
+  let res := classify_step cf sn cn (seg_raw s, o) (st, N.of_nat part) in
+  exists new, cs_log (fst res) = new ++ cs_log st /\
+  forall pos : nat, exists d : Pipeline.decision,
+    match d with Pipeline.Split _ p _ _ => p = pos | _ => True end /\
+    snd res = N.of_nat (part + Pipeline.part_incr d) /\
+    match Pipeline.seg_pieces k s d part with
+    | Ok ps => map (fun pc => (N.of_nat (Pipeline.p_part pc), Pipeline.p_rc pc)) ps
+               = map (fun e : placed * key * N => (p_part (fst (fst e)), p_rc (fst (fst e)))) (rev new)
+    | _ => True
+    end.
+Proof.
+  intros cf sn cn s o st part k. cbv zeta. unfold classify_step.
+  destruct (classify_key cf (seg_raw s) o) as [[kf kb] sr] eqn:Ek.
+  assert (Hsr : Pipeline.should_reverse s sr = sr).
+  { destruct (Pipeline.both_kmers s) eqn:B; [eapply should_reverse_case2; eassumption|apply should_reverse_other; exact B]. }
+  assert (Plain : forall k0 g, forall pos : nat, exists d : Pipeline.decision,
+            match d with Pipeline.Split _ p _ _ => p = pos | _ => True end /\
+            N.of_nat part + 1 = N.of_nat (part + Pipeline.part_incr d) /\
+            match Pipeline.seg_pieces k s d part with
+            | Ok ps => map (fun pc => (N.of_nat (Pipeline.p_part pc), Pipeline.p_rc pc)) ps
+                       = map (fun e : placed * key * N => (p_part (fst (fst e)), p_rc (fst (fst e))))
+                             (rev [(mk_placed sn cn (N.of_nat part) sr, k0, g)])
+            | _ => True end).
+  { intros k0 g pos. exists (Pipeline.Plain sr). split; [exact I|]. split; [cbn [Pipeline.part_incr]; lia|].
+    cbn [Pipeline.seg_pieces Pipeline.dec_o]. rewrite Hsr. reflexivity. }
+  destruct (kget (r_map (cs_reg st)) (kf, kb)) as [gid|] eqn:Eg.
+  - destruct ((kf =? MISS) && (kb =? MISS)); cbn [fst snd cs_log]; eexists [_]; (split; [reflexivity|apply Plain]).
+  - destruct (split_attempt cf (r_map (cs_reg st)) (seg_raw s) o kf kb sr sn cn (N.of_nat part)) as [[adds incr]|] eqn:Es.
+    + cbn [fst snd cs_log]. revert Es. unfold split_attempt.
+      destruct (negb (cf_no_split cf) && negb (kf =? MISS) && negb (kb =? MISS) && negb (kf =? kb)); [|discriminate].
+      destruct (o_mid o) as [middle|]; [|discriminate]. cbv zeta.
+      match goal with |- match kget ?m ?a with _ => _ end = _ -> _ => destruct (kget m a) as [lg|]; [|discriminate] end.
+      match goal with |- match kget ?m ?a with _ => _ end = _ -> _ => destruct (kget m a) as [rg|]; [|discriminate] end.
+      destruct (o_split o); intro E; inversion E; subst; clear E; cbn [map rev app fst snd seg_raw rs_front rs_back].
+      * eexists [_; _]. split; [reflexivity|]. intro pos.
+        exists (Pipeline.Split sr pos (if sr then Segment.sback s <=? middle else middle <=? Segment.sfront s)
+                                      (if sr then middle <=? Segment.sfront s else Segment.sback s <=? middle)).
+        split; [reflexivity|]. split; [cbn [Pipeline.part_incr]; lia|]. cbn [Pipeline.seg_pieces Pipeline.dec_o]. rewrite Hsr.
+        destruct (Pipeline.split_segment_at_position _ _ _) as [[ld rd]| |]; [|exact I|exact I].
+        destruct sr; cbn [map rev app fst snd mk_placed p_part p_rc Pipeline.p_part Pipeline.p_rc]; repeat f_equal; lia.
+      * eexists [_]. split; [reflexivity|]. intro pos.
+        exists (Pipeline.AssignL sr (if sr then Segment.sback s <=? middle else middle <=? Segment.sfront s)).
+        split; [exact I|]. split; [cbn [Pipeline.part_incr]; lia|]. cbn [Pipeline.seg_pieces Pipeline.dec_o]. reflexivity.
+      * eexists [_]. split; [reflexivity|]. intro pos.
+        exists (Pipeline.AssignR sr (if sr then middle <=? Segment.sfront s else Segment.sback s <=? middle)).
+        split; [exact I|]. split; [cbn [Pipeline.part_incr]; lia|]. cbn [Pipeline.seg_pieces Pipeline.dec_o]. reflexivity.
+    + destruct (register_key _ _ _) as [[m' gc'] gid]. cbn [fst snd cs_log]. eexists [_]. split; [reflexivity|apply Plain].
 Qed.
